@@ -97,13 +97,25 @@ class Roles:
                             if isinstance(a, ast.Name):
                                 wraps.append((g, a.id, bn))
                                 self.WRAP_BODY = bf
+        partial_factory = None
+        if not wraps:
+            # no closure at all: `return functools.partial(self._run_in_slot, job)`
+            for bf, bvar, bn in bodies:
+                for g in p.all_functions():
+                    for n in walk_local(g.node):
+                        if isinstance(n, ast.Return) and isinstance(n.value, ast.Call) \
+                                and (dotted(n.value.func) or '').endswith('partial') and n.value.args \
+                                and isinstance(n.value.args[0], ast.Attribute) and n.value.args[0].attr == bf.name:
+                            wraps.append((bf, bvar, bn))
+                            self.WRAP_BODY = bf
+                            partial_factory = g
         if len(wraps) != 1:
             raise AnalysisError("window wrapper (nested coroutine awaiting <job>.co_run()): %d candidates"
                                 % len(wraps))
         self.WRAP, self.wrap_jobvar, self.wrap_body_await = wraps[0]
         if self.WRAP_BODY is None:
             self.WRAP_BODY = self.WRAP
-        self.wrap_factory = self.WRAP.parent
+        self.wrap_factory = partial_factory if partial_factory is not None else self.WRAP.parent
         self.window_cls = self.wrap_factory.cls
         self._note('WRAP', self.WRAP.qualname)
         # ---- registry attribute / reverse attribute on the task
@@ -249,8 +261,9 @@ class Roles:
         cands = sorted((lits & inits) - {'required'})
         if len(cands) == 1:
             attr = cands[0]
+            # the builder gives every member a fresh set: a plain assignment (`&=` in sanitize() is not one)
             writers = [f for f in self.sched.methods.values() if f.name != '__init__' and any(
-                isinstance(n, ast.Attribute) and n.attr == attr and isinstance(n.ctx, ast.Store)
+                isinstance(n, ast.Assign) and any(isinstance(t, ast.Attribute) and t.attr == attr for t in n.targets)
                 for n in walk_local(f.node))]
             if len(writers) >= 1:
                 return attr, writers[0]
